@@ -581,6 +581,54 @@ def run(chk):
                    "over the outputs and decides the refinement" % loc[did].get("name"), "zero maxima replaced before the division")
     chk.floor("C07-D9.norm", nnorm, 2, "NaN-failing surplus tests")
 
+    # ------------------------------------------------------------------ D11 refinement "within the level limits": the limits in effect are the stored ones
+    chk.rule("C07-D11.limits", "a refinement call without limits uses the limits in effect: every API method stores a limits argument only when one is given (obligations of C08-D1.store), "
+                               "so that the children proposed by the classic criterion stay within the limits set earlier")
+    from tsg.report import Check as _Check
+    from rules import c08 as _c08
+    sub8 = _Check("C08", chk.tier, chk.seed)
+    _c08.run(sub8)
+    chk.absorb(sub8)
+    nl11 = 0
+    for o in sub8.obls:
+        if o["rule"] == "C08-D1.store" and "Refinement" in o["function"]:
+            nl11 += 1
+            chk.ob("C07-D11.limits", o["function"], o["construct"], o["ok"], o["where"], o["detail"], o["expected"])
+    chk.floor("C07-D11.limits", nl11, 4, "limit stores of the refinement methods (shared with C08)")
+
+    # ------------------------------------------------------------------ D10 "all outputs" is an accumulation over the outputs
+    chk.rule("C07-D10.alloutputs", "where the decision for one point is taken over all outputs (a boolean local that is set before a loop over the outputs and assigned inside it), the "
+                                   "assignments inside the loop are monotone: the literal that ends the search, or an expression that contains the flag itself. `flag = test(k)` would "
+                                   "let the last output alone decide")
+    nacc = 0
+    for f in gridfns:
+        if f.d.get("islambda"):
+            continue
+        loc = {v["did"]: v for v in f.locals().values() if "did" in v and v.get("t") == "bool"}
+        if not loc:
+            continue
+        for lp in [a for a in f.walk() if a.get("k") == "ForStmt" and a.get("cond") is not None]:
+            ct = txt(lp["cond"])
+            if not ("num_outputs" in ct or "active_outputs" in ct):
+                continue
+            for q in walk(lp.get("body") or {}):
+                if q.get("k") != "BinaryOperator" or q.get("op") != "=":
+                    continue
+                l = strip(q["c"][0])
+                if l is None or l.get("k") != "DeclRefExpr" or l.get("did") not in loc:
+                    continue
+                d = loc[l["did"]]
+                # declared outside this loop
+                if any(x is d for x in walk(lp)):
+                    continue
+                nacc += 1
+                chk.saw(f)
+                r = strip(q["c"][1])
+                mono = (r is not None and r.get("k") == "CXXBoolLiteralExpr") or any(x.get("k") == "DeclRefExpr" and x.get("did") == l["did"] for x in walk(q["c"][1]))
+                chk.ob("C07-D10.alloutputs", f.key, "`%s` inside the loop over the outputs @%d" % (txt(q)[:60], q.get("l", 0)), mono, f.loc(q),
+                       "" if mono else "the flag is overwritten for every output: only the last output decides whether the point is refined")
+    chk.floor("C07-D10.alloutputs", nacc, 4, "flag assignments inside loops over the outputs")
+
     # ------------------------------------------------------------------ D8 a validated selection parameter is consumed on every branch
     chk.rule("C07-D8.consumed", "the scale correction that the API validates and documents for surplus refinement / surplus-driven construction is handed to the grid class on every "
                                 "dispatch branch that performs the selection (a branch that drops it selects the uncorrected set)")
